@@ -94,6 +94,21 @@ def Span.iter (s : Span) : R (Option (List Period)) :=
     | some l => pure (some (l.map (fun x => ⟨p.freq, x⟩)))
   | _, _ => pure none
 
+/-! Equality of spans -/
+/-- `==` between two ends of spans: two periods compare by `Period.__eq__` (which rejects different frequencies); a contextual
+end has no serial (two of them: AttributeError) and no frequency of its own (against a period: the frequency check fails) -/
+def endpointEq : Endpoint → Endpoint → R Bool
+  | .res p, .res q => p.eq q
+  | .ctx _ _, .ctx _ _ => throw .badInput
+  | _, _ => throw .mixedFreq
+
+/-- `Span.__eq__`: `start == start and end == end and step == step`, with Python's short-circuit -/
+def Span.eq (s t : Span) : R Bool := do
+  if !(← endpointEq s.start t.start) then return false
+  if !(← endpointEq s.stop t.stop) then return false
+  return s.step == t.step
+
+
 /-! Slices -/
 /-- `slice(start, stop, step).indices(n)` (CPython `PySlice_AdjustIndices` after `None` defaults); `none` = ValueError for step 0 -/
 def sliceIndices (n : Nat) (start stop step : Option Int) : Option (Int × Int × Int) :=
